@@ -1322,18 +1322,6 @@ pub(crate) mod __verif {
         j3_check(two, false);
     }
 
-    // @obligation name=j3_replace_all_with_table props= fn=api::Regex::replace_all_with,api::Regex::find_iter,exec::Matches::next kind=bounded bound="haystack \"ab\", one concrete oracle table" min_checks=300 w=2 timeout=600 ignore_free_model=1
-    // (disabled: does not close - even a single concrete match table times out at 400 s, the symbolic one at 1500 s: the
-    // `for m in find_iter` loop re-enters the search driver under a merged cursor) replace_all_with == spec_splice.
-    #[kani::proof]
-    #[kani::unwind(8)]
-    #[kani::stub(crate::classicalbacktrack::MatchAttempter::try_at_pos, crate::classicalbacktrack::__verif::oracle_try_at_pos)]
-    #[kani::stub(crate::classicalbacktrack::BacktrackExecutor::successful_match, crate::classicalbacktrack::__verif::sm_stub)]
-    fn j3_replace_all_with_table() {
-        j3_table(false, Some(1), None, Some(2));
-    }
-
-
     // @obligation name=j3_replace_with_first props=C17 fn=api::Regex::replace_with,api::Regex::find kind=bounded bound="haystack \"a\u{e9}\"; every oracle; closure result \"#\"" min_checks=300 w=3 timeout=1500 ignore_free_model=1
     // replace_with replaces exactly the first match and preserves the rest; no match -> unchanged.
     #[kani::proof]
@@ -1380,5 +1368,147 @@ pub(crate) mod __verif {
         core::mem::forget(out);
         kani::cover!(n == len, "no match: haystack unchanged");
         kani::cover!(n == len + 2 && exp[1] == b'[', "match after a gap");
+    }
+
+    // ---- C17: replace_all / replace_all_with against the splice specification, modular in the match iterator ----
+    pub(crate) static mut SCRIPT: [(usize, usize); 4] = [(0, 0); 4];
+    pub(crate) static mut SCRIPT_N: usize = 0;
+    pub(crate) static mut SCRIPT_I: usize = 0;
+
+    /// Contract stub of BacktrackExecutor::next_match_with_prefix_search (its contract is the Verus unit cv_drivers): the
+    /// first scripted match starting at or after `pos`, cursor := its end, or one character further after an empty match.
+    pub(crate) fn scripted_search<'r, Input: crate::indexing::InputIndexer, PrefixSearch: crate::bytesearch::ByteSearcher>(
+        this: &mut crate::classicalbacktrack::BacktrackExecutor<'r, Input>, pos: Input::Position,
+        next_start: &mut Option<Input::Position>, _ps: &PrefixSearch,
+    ) -> Option<Match> where 'r: 'r {
+        let inp = crate::classicalbacktrack::__verif::input_of(this);
+        let off = inp.pos_to_offset(pos);
+        unsafe {
+            while SCRIPT_I < SCRIPT_N && SCRIPT[SCRIPT_I].0 < off {
+                SCRIPT_I += 1;
+            }
+            if SCRIPT_I < SCRIPT_N {
+                let (a, b) = SCRIPT[SCRIPT_I];
+                SCRIPT_I += 1;
+                let endp = inp.left_end() + b;
+                *next_start = if a != b { Some(endp) } else { inp.next_right_pos(endp) };
+                Some(Match { range: a..b, captures: Vec::new(), group_names: Box::new([]) })
+            } else {
+                None
+            }
+        }
+    }
+
+    /// An arbitrary match sequence the iterator contract allows on a haystack: n <= 3 matches on character boundaries, each
+    /// starting at or after the cursor left by the previous one (its end, or one character further after an empty match).
+    fn any_script(len: usize, bnd: &[bool; 5]) -> usize {
+        let n: usize = kani::any();
+        kani::assume(n <= 3);
+        let mut cursor: Option<usize> = Some(0);
+        let mut i = 0;
+        while i < 3 {
+            if i < n {
+                let a: usize = kani::any();
+                let b: usize = kani::any();
+                kani::assume(a <= b && b <= len && bnd[a] && bnd[b]);
+                match cursor {
+                    Some(c) => kani::assume(a >= c),
+                    None => kani::assume(false),
+                }
+                unsafe { SCRIPT[i] = (a, b); }
+                cursor = if a != b { Some(b) } else { next_boundary(b, len, bnd) };
+            }
+            i += 1;
+        }
+        unsafe { SCRIPT_N = n; SCRIPT_I = 0; }
+        n
+    }
+
+    /// Splice specification over the scripted sequence: each match replaced by `open ++ (its own text if keep) ++ close`.
+    fn spec_splice_script(text: &[u8], len: usize, n: usize, open: &[u8], keep: bool, close: &[u8], out: &mut [u8; 24]) -> usize {
+        let mut k = 0;
+        let mut last = 0;
+        let mut i = 0;
+        while i < n {
+            let (a, b) = unsafe { SCRIPT[i] };
+            let mut p = last;
+            while p < a { out[k] = text[p]; k += 1; p += 1; }
+            let mut q = 0;
+            while q < open.len() { out[k] = open[q]; k += 1; q += 1; }
+            if keep {
+                let mut p = a;
+                while p < b { out[k] = text[p]; k += 1; p += 1; }
+            }
+            let mut q = 0;
+            while q < close.len() { out[k] = close[q]; k += 1; q += 1; }
+            last = b;
+            i += 1;
+        }
+        let mut p = last;
+        while p < len { out[k] = text[p]; k += 1; p += 1; }
+        k
+    }
+
+    fn j3_all_body(which: u8) {
+        let re = regex_goal();
+        let text: &'static str = "a\u{e9}b";
+        let (len, bnd) = (4usize, [true, true, false, true, true]);
+        let n = any_script(len, &bnd);
+        let mut exp = [0u8; 24];
+        let (out, m) = match which {
+            0 => (re.replace_all_with(text, |_m| String::from("#")), spec_splice_script(text.as_bytes(), len, n, b"#", false, b"", &mut exp)),
+            1 => (re.replace_all_with(text, |m| String::from(&text[m.range()])), spec_splice_script(text.as_bytes(), len, n, b"", true, b"", &mut exp)),
+            2 => (re.replace_all(text, "[$0]"), spec_splice_script(text.as_bytes(), len, n, b"[", true, b"]", &mut exp)),
+            _ => (re.replace_all(text, "#"), spec_splice_script(text.as_bytes(), len, n, b"#", false, b"", &mut exp)),
+        };
+        let ob = out.as_bytes();
+        assert!(ob.len() == m, "replace_all*: length equals the splice specification");
+        let k: usize = kani::any();
+        if k < m {
+            assert!(ob[k] == exp[k], "replace_all*: content equals the splice specification");
+        }
+        if which == 1 {
+            assert!(ob.len() == len, "replacing every match by its own text is the identity");
+        }
+        core::mem::forget(out);
+        kani::cover!(n == 0, "no match: the haystack is returned unchanged");
+        kani::cover!(n == 3 && unsafe { SCRIPT[0] == (0, 0) && SCRIPT[1].0 == 1 }, "adjacent and empty matches");
+    }
+
+    // @obligation name=j3_replace_all_with_marker props=C17 fn=api::Regex::replace_all_with,api::Regex::find_iter,exec::Matches::next,classicalbacktrack::BacktrackExecutor::next_match kind=bounded bound="haystack \"a\u{e9}b\" (4 bytes, a 2-byte char); EVERY match sequence of up to 3 matches the iterator contract allows (symbolic ranges on boundaries, empty and adjacent matches included); closure result \"#\"; the search driver next_match_with_prefix_search is replaced by its contract (Verus unit cv_drivers)" min_checks=300 w=3 timeout=1500 ignore_free_model=1
+    // replace_all_with == splice specification: every match of the sequence replaced by the closure's result, all unmatched
+    // text preserved byte for byte and in order; no match -> the haystack unchanged.
+    #[kani::proof]
+    #[kani::unwind(6)]
+    #[kani::stub(crate::classicalbacktrack::BacktrackExecutor::next_match_with_prefix_search, scripted_search)]
+    fn j3_replace_all_with_marker() {
+        j3_all_body(0);
+    }
+
+    // @obligation name=j3_replace_all_with_identity props=C17 fn=api::Regex::replace_all_with kind=bounded bound="as j3_replace_all_with_marker; closure result = the match's own text" min_checks=300 w=3 timeout=1500 ignore_free_model=1
+    // Replacing every match by its own text is the identity.
+    #[kani::proof]
+    #[kani::unwind(6)]
+    #[kani::stub(crate::classicalbacktrack::BacktrackExecutor::next_match_with_prefix_search, scripted_search)]
+    fn j3_replace_all_with_identity() {
+        j3_all_body(1);
+    }
+
+    // @obligation name=j3_replace_all_template props=C17:t fn=api::Regex::replace_all,api::Regex::expand_replacement kind=bounded bound="as j3_replace_all_with_marker; template \"[$0]\"" min_checks=300 w=3 timeout=1500 ignore_free_model=1
+    // replace_all == splice specification with each match replaced by the template's expansion "[" ++ match text ++ "]".
+    #[kani::proof]
+    #[kani::unwind(6)]
+    #[kani::stub(crate::classicalbacktrack::BacktrackExecutor::next_match_with_prefix_search, scripted_search)]
+    fn j3_replace_all_template() {
+        j3_all_body(2);
+    }
+
+    // @obligation name=j3_replace_all_literal props=C17 fn=api::Regex::replace_all,api::Regex::expand_replacement kind=bounded bound="as j3_replace_all_with_marker; template \"#\" (no references)" min_checks=300 w=3 timeout=1500 ignore_free_model=1
+    // replace_all == splice specification with each match replaced by the literal template.
+    #[kani::proof]
+    #[kani::unwind(6)]
+    #[kani::stub(crate::classicalbacktrack::BacktrackExecutor::next_match_with_prefix_search, scripted_search)]
+    fn j3_replace_all_literal() {
+        j3_all_body(3);
     }
 }
